@@ -365,5 +365,23 @@ Definition wf_heap (h : heap) : bool := objs_wf h 0 (objs h) && forallb (cell_wf
 Definition is_struct (o : obj) : bool := match o with OStruct _ => true | _ => false end.
 Definition struct_free (h : heap) : bool := negb (existsb is_struct (objs h)).
 
+(* a value below which printing meets no list and no dict (through tuples and structs) *)
+Fixpoint plain (fuel : nat) (h : heap) (x : loc) : bool :=
+  match fuel with
+  | 0 => false
+  | S f =>
+    match lookup h x with
+    | None => false
+    | Some (OList _) | Some (ODict _) => false
+    | Some (OTuple es) => forallb (plain f h) es
+    | Some (OStruct fs) => forallb (plain f h) (map snd fs)
+    | Some _ => true
+    end
+  end.
+
+(* every struct of the heap is such a value: records of immutable data *)
+Definition structs_plain (h : heap) : bool :=
+  forallb (fun x => match lookup h x with Some (OStruct _) => plain (S x) h x | _ => true end) (seq 0 (size h)).
+
 (* fuel bounds, functions of the size of the heap only *)
 Definition sq_bound (h : heap) : nat := (size h + 1) * (size h + 1).
